@@ -10,8 +10,14 @@
 (* tied elements max_by / min_by return): a judge must not insist on this  *)
 (* particular value then.                                                  *)
 (*                                                                         *)
-(* REG: function registry, a set of names with built-in meaning; a name    *)
-(* outside it is an unknown function.                                      *)
+(* REG: the function registry a runtime holds when the expression is       *)
+(* compiled: a function from names to bindings.  [k |-> "builtin"] is the  *)
+(* built-in of that name; custom functions (C15) are                       *)
+(*   [k |-> "const", id |-> n]     a closure returning the number n        *)
+(*   [k |-> "sigconst", id |-> n]  the same behind a declared signature    *)
+(*                                 (one number argument)                   *)
+(*   [k |-> "first", id |-> n]     a closure returning its first argument  *)
+(* A name outside DOMAIN REG is an unknown function.                       *)
 (***************************************************************************)
 EXTENDS Tokens, Slice, JsonParse, JText, SequencesExt
 
@@ -157,7 +163,7 @@ HasNumber(v) == CASE v.t = "num" -> TRUE
 (* Evaluation                                                              *)
 (***************************************************************************)
 RECURSIVE Eval(_, _, _), EvalSeq(_, _, _, _, _), MapElems(_, _, _, _, _), Apply(_, _, _), EvalKvs(_, _, _, _, _),
-          KeysOf(_, _, _, _, _)
+          KeysOf(_, _, _, _, _), ApplyBinding(_, _, _, _)
 
 Cmp(op, l, r) ==
   IF op = "eq" THEN JBool(l = r)
@@ -231,8 +237,8 @@ Eval(a, v, REG) ==
     [] n = "Expref"   -> VOk(JExpref(a.l))
     [] n = "Function" -> LET m == EvalSeq(a.args, 1, v, REG, [vals |-> <<>>, amb |-> FALSE]) IN
                          IF IsVErr(m) THEN m
-                         ELSE IF a.name \notin REG THEN WithAmb(VErr("unknown"), m.amb)
-                         ELSE WithAmb(Apply(FnOf(a.name), m.ok, REG), m.amb)
+                         ELSE IF a.name \notin DOMAIN REG THEN WithAmb(VErr("unknown"), m.amb)
+                         ELSE WithAmb(ApplyBinding(REG[a.name], a.name, m.ok, REG), m.amb)
 
 (* keys of the elements of xs under the expression reference e; all numbers or all strings, else a type error *)
 KeysOf(e, xs, i, REG, acc) ==
@@ -298,5 +304,16 @@ Apply(f, args, REG) ==
                           ELSE VOk(JStr(JsonText(x)))
     [] f = "type"  -> VOk(JStr(TypeCps(TypeName(x))))
 
-Builtins == {NameCps(FnNames[i]) : i \in DOMAIN FnNames}
+(* a custom function declared with the signature (number): validated like a built-in before it is invoked *)
+SigConstValidate(args) == IF Len(args) # 1 THEN "arity" ELSE IF args[1].t = "num" THEN "ok" ELSE "type"
+CustomInvoked(b, args) == b.k \in {"const", "first"} \/ (b.k = "sigconst" /\ SigConstValidate(args) = "ok")
+
+ApplyBinding(b, name, args, REG) ==
+  CASE b.k = "builtin" -> Apply(FnOf(name), args, REG)
+    [] b.k = "const" -> VOk(JInt(b.id))
+    [] b.k = "first" -> VOk(IF args = <<>> THEN JNull ELSE args[1])
+    [] b.k = "sigconst" -> LET c == SigConstValidate(args) IN IF c = "ok" THEN VOk(JInt(b.id)) ELSE VErr(c)
+
+BuiltinNames == {NameCps(FnNames[i]) : i \in DOMAIN FnNames}
+Builtins == [nm \in BuiltinNames |-> [k |-> "builtin"]]
 =============================================================================
